@@ -170,11 +170,18 @@ def runCf (j : Json) : Except String Json := do
     Json.arr #["C11", "getter-can-fall-off-the-end-but-not-reported", (g.at_ : Json)]
   let o3 := (cases.filter fun c => !c.empty && !c.ftComment && c.body.compl.n && prog.reachable c.p && !implFt.contains c.p).map fun c =>
     Json.arr #["C11", "case-can-fall-through-but-not-reported", (c.p : Json)]
+  -- statements that an engine (node, recorded once in corpus/cf_exec.jsonl) really executed: the reference semantics must
+  -- call every one of them reachable — a check of the hand-written specification itself, not of the linter
+  let executed : List Nat := match j.getObjVal? "executed" with
+    | .ok (.arr a) => a.toList.filterMap (fun x => x.getNat?.toOption)
+    | _ => []
+  let o5 := (executed.filter (fun p => !prog.reachable p)).map fun (p : Nat) =>
+    Json.arr #["C10", "reference-semantics-contradicted-by-recorded-execution", (p : Json)]
   let o4 := (sortNat ((prog.stopViol implInfo).filter prog.reachable)).map fun (p : Nat) => Json.arr #["C11", "metadata-says-stops-but-can-complete-normally", (p : Json)]
   pure (Json.mkObj [("meta", metaJ), ("unreachable", Json.arr (un.map (fun (n : Nat) => (n : Json))).toArray),
     ("getter", Json.arr (ge.map (fun (n : Nat) => (n : Json))).toArray),
     ("fallthrough", Json.arr (ft.map (fun (n : Nat) => (n : Json))).toArray),
-    ("oracle", Json.arr (o1 ++ o2 ++ o3 ++ o4).toArray)])
+    ("oracle", Json.arr (o1 ++ o2 ++ o3 ++ o4 ++ o5).toArray)])
 
 def dispatch (j : Json) : Except String Json := do
   match ← getStr j "m" with
